@@ -159,6 +159,20 @@ func (r *runner) checkAdd(line string, d *txDef, err error, before, after *snaps
 		e := defs[i]
 		related := names(e, d) || names(d, e) || (d.oracle >= 0 && e.oracle == d.oracle)
 		if related {
+			if names(e, d) {
+				r.o.Count("add:removed-names-new")
+			}
+			if names(d, e) {
+				r.o.Count("add:removed-named-by-new")
+			}
+			if d.oracle >= 0 && e.oracle == d.oracle {
+				r.o.Count("add:replaced-oracle")
+			}
+			if payerOfDef(e) == payerOfDef(d) && (names(e, d) || names(d, e)) {
+				r.o.Count("add:replaced-own-payer")
+			} else if payerOfDef(e).p == 1 && payerOfDef(d).p == 1 && (names(e, d) || names(d, e)) {
+				r.o.Count("add:replaced-other-depositor")
+			}
 			continue
 		}
 		rest = append(rest, i)
